@@ -255,10 +255,15 @@ func ruleGap(c *Ctx) {
 				}
 			}
 			sort.Strings(bad)
+			gp := []string{"C04", "C19"}
+			if fn == "Decimal.Equal" {
+				// Equal is the yardstick of the round-trip clauses ("... is Equal to d")
+				gp = append(gp, "C05", "C06", "C09", "C10", "C13", "C14")
+			}
 			if orientBad != "" {
-				c.bad(key, fd, fmt.Sprintf("%s, exponent gap %+d: %s", fn, g, orientBad))
+				c.bad(key, fd, fmt.Sprintf("%s, exponent gap %+d: %s", fn, g, orientBad), gp...)
 			} else if len(bad) > 0 {
-				c.bad(key, fd, fmt.Sprintf("%s, exponent gap %+d: the coefficients are compared at different scales: %s", fn, g, strings.Join(bad, " | ")))
+				c.bad(key, fd, fmt.Sprintf("%s, exponent gap %+d: the coefficients are compared at different scales: %s", fn, g, strings.Join(bad, " | ")), gp...)
 			} else {
 				abs := g
 				if abs < 0 {
@@ -268,12 +273,12 @@ func ruleGap(c *Ctx) {
 				if nOK == 0 {
 					if abs <= 35 {
 						// every gap up to 35 digits must reach an aligned comparison on some path
-						c.bad(key, fd, fmt.Sprintf("%s, exponent gap %+d: no aligned comparison is reachable; coefficients up to 35 digits apart can still be equal", fn, g))
+						c.bad(key, fd, fmt.Sprintf("%s, exponent gap %+d: no aligned comparison is reachable; coefficients up to 35 digits apart can still be equal", fn, g), gp...)
 						continue
 					}
 					detail = "decided by magnitude before alignment"
 				}
-				c.ok(key, fd, detail)
+				c.ok(key, fd, detail, gp...)
 			}
 		}
 	}
